@@ -656,6 +656,9 @@ func (fr *fileReader) ReadAt(p []byte, off int64) (n int, err error) {
 		if !e.isDataType() {
 			continue
 		}
+		if e.Type == "reg" && e.Size == 0 {
+			continue // an empty file has no data (and no offset) in any stream
+		}
 		if e.Offset != fr.r.toc.Entries[ent.chunkTopIndex].Offset {
 			break
 		}
